@@ -1,38 +1,55 @@
 //! RNG streams as generated data (DESIGN §3.2).
 use rand::RngCore;
-use std::cell::Cell;
+use std::cell::{Cell, RefCell};
 use std::rc::Rc;
 
 use crate::engine::stat::SplitMix64;
 
-/// Words come from a generated script, then from a PRNG seeded by a generated value (so that
-/// rand's rejection loops terminate). Counts the words drawn in a shared cell.
-pub struct ScriptRng {
+/// State of a [`ScriptRng`]; visible to the harness through an [`RngHandle`].
+#[derive(Clone)]
+pub struct RngState {
     script: Rc<Vec<u64>>,
     pos: usize,
     tail: SplitMix64,
-    drawn: Rc<Cell<u64>>,
+    pub drawn: u64,
+}
+
+pub type RngHandle = Rc<RefCell<RngState>>;
+
+thread_local! {
+    static LAST_CLONE: RefCell<Option<RngHandle>> = const { RefCell::new(None) };
+}
+
+/// Handle of the most recently cloned ScriptRng on this thread (taken right after cloning the
+/// structure that owns it).
+pub fn take_last_clone() -> Option<RngHandle> {
+    LAST_CLONE.with(|c| c.borrow_mut().take())
+}
+
+/// Words come from a generated script, then from a PRNG seeded by a generated value (so that
+/// rand's rejection loops terminate). Counts the words drawn. `clone()` is a deep copy whose
+/// handle can be fetched with [`take_last_clone`], so that the harness can align the RNG
+/// streams of two structures.
+pub struct ScriptRng {
+    st: RngHandle,
 }
 
 impl ScriptRng {
-    pub fn new(script: Vec<u64>, tail_seed: u64) -> (Self, Rc<Cell<u64>>) {
-        let drawn = Rc::new(Cell::new(0));
-        (
-            ScriptRng { script: Rc::new(script), pos: 0, tail: SplitMix64(tail_seed), drawn: drawn.clone() },
-            drawn,
-        )
+    pub fn new(script: Vec<u64>, tail_seed: u64) -> (Self, RngHandle) {
+        let st = Rc::new(RefCell::new(RngState { script: Rc::new(script), pos: 0, tail: SplitMix64(tail_seed), drawn: 0 }));
+        (ScriptRng { st: st.clone() }, st)
+    }
+    pub fn from_state(state: RngState) -> (Self, RngHandle) {
+        let st = Rc::new(RefCell::new(state));
+        (ScriptRng { st: st.clone() }, st)
     }
 }
 
 impl Clone for ScriptRng {
-    /// deep copy of the state; the clone gets its own draw counter
     fn clone(&self) -> Self {
-        ScriptRng {
-            script: self.script.clone(),
-            pos: self.pos,
-            tail: self.tail.clone(),
-            drawn: Rc::new(Cell::new(self.drawn.get())),
-        }
+        let st = Rc::new(RefCell::new(self.st.borrow().clone()));
+        LAST_CLONE.with(|c| *c.borrow_mut() = Some(st.clone()));
+        ScriptRng { st }
     }
 }
 
@@ -41,13 +58,14 @@ impl RngCore for ScriptRng {
         (self.next_u64() >> 32) as u32
     }
     fn next_u64(&mut self) -> u64 {
-        self.drawn.set(self.drawn.get() + 1);
-        if self.pos < self.script.len() {
-            let w = self.script[self.pos];
-            self.pos += 1;
+        let mut s = self.st.borrow_mut();
+        s.drawn += 1;
+        if s.pos < s.script.len() {
+            let w = s.script[s.pos];
+            s.pos += 1;
             w
         } else {
-            self.tail.next()
+            s.tail.next()
         }
     }
     fn fill_bytes(&mut self, dest: &mut [u8]) {
